@@ -14,6 +14,7 @@ from docutils import frontend, nodes
 from docutils.core import default_description, publish_cmdline, publish_string
 from docutils.frontend import filter_settings_spec
 from docutils.parsers.rst import Parser as RstParser
+from docutils.parsers.rst import roles
 from docutils.writers.html5_polyglot import HTMLTranslator, Writer
 
 from myst_parser.config.main import (
@@ -316,6 +317,9 @@ class Parser(RstParser):
         parser = create_md_parser(config, DocutilsRenderer)
         parser.options["document"] = document
         parser.render(inputstring)
+
+        # as in the docutils rST parser: a default role set by the document ends with it
+        roles._roles.pop("", None)  # type: ignore[attr-defined]
 
         # post-processing
 
